@@ -182,8 +182,10 @@ func c10LockAlias(e *Env) {
 			return true
 		})
 		sort.Slice(evs, func(i, j int) bool { return evs[i].pos < evs[j].pos })
+		// released: the last lock event before p is an explicit Unlock. A function without any
+		// event on connsLock is a helper whose callers hold the lock (C10.lock checks that).
 		held := func(p token.Pos) bool {
-			h := false
+			h := true
 			for _, e := range evs {
 				if e.pos < p {
 					h = e.lock
@@ -592,6 +594,8 @@ func c04ReadFromEOF(e *Env) {
 			continue
 		}
 		fname := w.FuncName(fi.Obj)
+		// covers: walking the statements in order, the error result is assigned anew (or an explicit
+		// other value is returned) before any way out
 		var covers func(list []ast.Stmt) bool
 		covers = func(list []ast.Stmt) bool {
 			for _, s := range list {
@@ -603,12 +607,10 @@ func c04ReadFromEOF(e *Env) {
 						}
 					}
 				case *ast.ReturnStmt:
-					if len(x.Results) == 2 && usedVar(info, x.Results[1]) != errV {
-						return true
-					}
+					return len(x.Results) == 2 && usedVar(info, x.Results[1]) != errV
 				case *ast.IfStmt:
+					a := covers(x.Body.List)
 					if x.Else != nil {
-						a := covers(x.Body.List)
 						b := false
 						switch el := x.Else.(type) {
 						case *ast.BlockStmt:
@@ -619,25 +621,45 @@ func c04ReadFromEOF(e *Env) {
 						if a && b {
 							return true
 						}
+						if !a && blockLeaves(x.Body) {
+							return false
+						}
+					} else if !a && blockLeaves(x.Body) {
+						return false
 					}
 				}
 			}
 			return false
 		}
+		par := parents(fi.Decl)
 		ast.Inspect(fi.Decl.Body, func(nd ast.Node) bool {
 			is, ok := nd.(*ast.IfStmt)
 			if !ok {
 				return true
 			}
 			be, ok := unparen(is.Cond).(*ast.BinaryExpr)
-			if !ok || be.Op != token.EQL || usedVar(info, be.X) != errV {
+			if !ok || (be.Op != token.EQL && be.Op != token.NEQ) || usedVar(info, be.X) != errV {
 				return true
 			}
 			if v := usedVar(info, be.Y); v == nil || v.Pkg() == nil || v.Pkg().Path() != "io" || v.Name() != "EOF" {
 				return true
 			}
+			branch := is.Body.List
+			if be.Op == token.NEQ {
+				// `if err != io.EOF { return }`: the EOF branch is what follows in the block
+				blk, isBlk := par[is].(*ast.BlockStmt)
+				if !isBlk || !blockLeaves(is.Body) || is.Else != nil {
+					return true
+				}
+				branch = nil
+				for i, s := range blk.List {
+					if s == ast.Stmt(is) {
+						branch = blk.List[i+1:]
+					}
+				}
+			}
 			n++
-			r.Check(covers(is.Body.List), rule, fmt.Sprintf("%s:eof-branch#%d", fname, n), w.Pos(is.Pos()), "the source's io.EOF is replaced on every way through its branch",
+			r.Check(covers(branch), rule, fmt.Sprintf("%s:eof-branch#%d", fname, n), w.Pos(is.Pos()), "the source's io.EOF is replaced on every way through its branch",
 				"a way through `if "+errV.Name()+" == io.EOF { … }` leaves "+errV.Name()+" untouched: ReadFrom returns io.EOF although the copy succeeded, the body writer reports a failed response and the connection is closed after a complete message was sent")
 			return true
 		})
@@ -716,10 +738,126 @@ func c04EmptyChunk(e *Env) {
 					}
 				}
 			}
+			// or an enclosing guard: `if n != 0 { … }` / `if len(p) > 0 { … }` / the else of `n == 0`
+			isLenOf := func(x ast.Expr) bool {
+				x = unparen(x)
+				if lc, ok := x.(*ast.CallExpr); ok && isBuiltin(info, lc, "len") && len(lc.Args) == 1 && dataVar != nil && usedVar(info, lc.Args[0]) == dataVar {
+					return true
+				}
+				return lenVar != nil && usedVar(info, x) == lenVar
+			}
+			for _, g := range guardConds(par, c) {
+				if g.cond == nil {
+					continue
+				}
+				parts := splitOp(g.cond, token.LAND)
+				if g.neg {
+					parts = splitOp(g.cond, token.LOR)
+				}
+				for _, p := range parts {
+					be, ok := p.(*ast.BinaryExpr)
+					if !ok || !isLenOf(be.X) {
+						continue
+					}
+					z, isC := constInt(info, be.Y)
+					if !isC {
+						continue
+					}
+					if !g.neg && ((be.Op == token.NEQ || be.Op == token.GTR) && z == 0 || be.Op == token.GEQ && z == 1) {
+						good = true
+					}
+					if g.neg && ((be.Op == token.EQL || be.Op == token.LEQ) && z == 0 || be.Op == token.LSS && z == 1) {
+						good = true
+					}
+				}
+			}
 			r.Check(good, rule, key, w.Pos(c.Pos()), "a data chunk is known to be non-empty",
 				"`"+types.ExprString(c)+"` can be reached with an empty slice: WriteChunk then emits `0\\r\\n`, the end-of-body marker, in the middle of the body")
 			return true
 		})
 	}
 	r.Floor(rule, n, 3, "calls of ext.WriteChunk")
+}
+
+// C05.retaintrailer — the trailer block is copied before user code can run again.
+func c05RetainTrailer(e *Env) {
+	const rule = "C05.retaintrailer"
+	w, r := e.W, e.R
+	r.Explainf("C05.retaintrailer: Trailer.Header() returns the trailer's reusable scratch buffer, which the next Set/Add/Header call refills with RAW values before they are sanitised into it again; network.Writer.WriteBinary keeps a reference to blocks of 4 KiB and more until Flush; and the stream writers close the body stream (user code) between writing the trailer and flushing. In packages protocol/http1/{ext,req,resp} the result of Trailer.Header() — directly or through a local — is therefore never an argument of WriteBinary: the block is copied into memory obtained from the writer (Malloc + copy), as the response header block is (C05.retain). Queued by reference, a trailer set in the stream's Close puts its raw CR/LF on the wire.")
+	tr := w.Named("pkg/protocol", "Trailer")
+	if tr == nil {
+		r.Anchor(rule, "protocol.Trailer")
+		return
+	}
+	n := 0
+	for _, fi := range declaredNonTest(w) {
+		rel := w.RelPkg(fi.Obj.Pkg())
+		if fi.Decl.Body == nil || (rel != "pkg/protocol/http1/ext" && rel != "pkg/protocol/http1/req" && rel != "pkg/protocol/http1/resp") {
+			continue
+		}
+		info := fi.Pkg.TypesInfo
+		fname := w.FuncName(fi.Obj)
+		isScratch := func(x ast.Expr) bool {
+			c, ok := unparen(x).(*ast.CallExpr)
+			if !ok {
+				return false
+			}
+			f := calleeOf(info, c)
+			return f != nil && f.Name() == "Header" && recvNamed(f) == tr
+		}
+		scratchVars := map[*types.Var]bool{}
+		uses := 0
+		ast.Inspect(fi.Decl.Body, func(nd ast.Node) bool {
+			switch x := nd.(type) {
+			case *ast.AssignStmt:
+				for i, rh := range x.Rhs {
+					if isScratch(rh) && i < len(x.Lhs) {
+						uses++
+						if id, ok := x.Lhs[i].(*ast.Ident); ok {
+							if v, _ := info.Defs[id].(*types.Var); v != nil {
+								scratchVars[v] = true
+							} else if v := usedVar(info, id); v != nil {
+								scratchVars[v] = true
+							}
+						}
+					}
+				}
+			case *ast.CallExpr:
+				for _, a := range x.Args {
+					if isScratch(a) {
+						uses++
+					}
+				}
+			}
+			return true
+		})
+		if uses == 0 {
+			continue
+		}
+		n++
+		bad := token.NoPos
+		ast.Inspect(fi.Decl.Body, func(nd ast.Node) bool {
+			c, ok := nd.(*ast.CallExpr)
+			if !ok || len(c.Args) != 1 {
+				return true
+			}
+			f := calleeOf(info, c)
+			if f == nil || f.Name() != "WriteBinary" {
+				return true
+			}
+			if isScratch(c.Args[0]) {
+				bad = c.Pos()
+			}
+			if v := usedVar(info, c.Args[0]); v != nil && scratchVars[v] {
+				bad = c.Pos()
+			}
+			return true
+		})
+		if bad.IsValid() {
+			r.Fail(rule, fname+":trailer-block", w.Pos(bad), "the serialised trailer block is copied, not queued by reference", "WriteBinary receives Trailer.Header(), the trailer's scratch buffer: for 4 KiB and more the writer keeps the reference until Flush, and a trailer set meanwhile (in the body stream's Close) refills the buffer with its raw value — CR/LF included")
+		} else {
+			r.OK(rule, fname+":trailer-block", w.Pos(fi.Decl.Pos()), "the serialised trailer block is copied, not queued by reference")
+		}
+	}
+	r.Floor(rule, n, 1, "functions serialising a trailer block for the wire")
 }
